@@ -2,7 +2,9 @@ package work
 
 import (
 	"fmt"
+	hessian "github.com/vogo/gohessian"
 	"math/rand"
+	"reflect"
 	"time"
 
 	"verif/zoo"
@@ -157,6 +159,23 @@ func (c10) Run(c Case, env *Env) Result {
 			}
 			if d := zoo.Equiv(t, got, zoo.EquivOpts{}); d != "" {
 				viol("mismatch:instant", fmt.Sprintf("(%s) decoded as %s (unix %d.%09d)", hexClip(o.Wire), got.UTC().Format(time.RFC3339Nano), got.Unix(), got.Nanosecond()))
+			}
+			// the same bytes (name map taken from the value) decoded with the type map taken from the TYPE:
+			// both extractions must agree on the wire name of []time.Time
+			if pos == "elem" || pos == "field" {
+				var d2 interface{}
+				var e2 error
+				pi, _ := Guard(func() { d2, e2 = hessian.ToObject(o.Wire, hessian.TypeMapOf(reflect.TypeOf(val))) })
+				switch {
+				case pi != nil:
+					viol(pi.Class, "decode with TypeMapOf(type): panic "+pi.Msg)
+				case e2 != nil:
+					viol("dec-error", fmt.Sprintf("encoded with the name map of the value, decoded with TypeMapOf(type) (%s): %v", hexClip(o.Wire), e2))
+				default:
+					if got2, ok := get(d2); !ok || zoo.Equiv(t, got2, zoo.EquivOpts{}) != "" {
+						viol("mismatch:instant", fmt.Sprintf("decoded with TypeMapOf(type) (%s): %v", hexClip(o.Wire), d2))
+					}
+				}
 			}
 		}
 	}
